@@ -315,6 +315,44 @@ pub unsafe extern "C" fn creat64(path: *const c_char, mode: c_uint) -> c_int {
     )
 }
 
+// ---- stdout capture (used by C14 for `QRCode::print`) ----------------------
+
+thread_local! {
+    static CAPTURE: RefCell<Option<Vec<u8>>> = const { RefCell::new(None) };
+}
+
+/// From now on, bytes the calling thread writes to fd 1 are collected instead of written.
+pub fn capture_stdout_begin() {
+    // make sure nothing of ours is pending in std's line buffer
+    let _ = std::io::Write::flush(&mut std::io::stdout());
+    CAPTURE.with(|c| *c.borrow_mut() = Some(Vec::new()));
+}
+
+pub fn capture_stdout_end() -> Vec<u8> {
+    let _ = std::io::Write::flush(&mut std::io::stdout());
+    CAPTURE.with(|c| c.borrow_mut().take()).unwrap_or_default()
+}
+
+unsafe fn captured(fd: c_int, buf: *const c_void, count: size_t) -> bool {
+    if fd != 1 {
+        return false;
+    }
+    CAPTURE
+        .try_with(|c| match c.try_borrow_mut() {
+            Ok(mut b) => match b.as_mut() {
+                Some(v) => {
+                    if count > 0 && !buf.is_null() {
+                        v.extend_from_slice(std::slice::from_raw_parts(buf as *const u8, count));
+                    }
+                    true
+                }
+                None => false,
+            },
+            Err(_) => false,
+        })
+        .unwrap_or(false)
+}
+
 // ---- write family ----------------------------------------------------------
 
 /// Decides what a tracked write of `n` bytes does: `Pass(m)` = really write the first `m` bytes.
@@ -396,6 +434,9 @@ fn note_accepted(n: ssize_t) {
 
 #[no_mangle]
 pub unsafe extern "C" fn write(fd: c_int, buf: *const c_void, count: size_t) -> ssize_t {
+    if captured(fd, buf, count) {
+        return count as ssize_t;
+    }
     if tracked(fd) {
         sys_point("sys:write");
     }
@@ -446,6 +487,13 @@ pub unsafe extern "C" fn writev(fd: c_int, iov: *const iovec, iovcnt: c_int) -> 
     if !iov.is_null() && iovcnt > 0 {
         for i in 0..iovcnt as usize {
             total = total.saturating_add((*iov.add(i)).iov_len);
+        }
+        if fd == 1 && captured(1, std::ptr::null(), 0) {
+            for i in 0..iovcnt as usize {
+                let v = &*iov.add(i);
+                captured(1, v.iov_base, v.iov_len);
+            }
+            return total as ssize_t;
         }
     }
     match decide_write(fd, total) {
